@@ -1,5 +1,5 @@
 import Witverif.Proofs.Scalar
-import Witverif.Generated.ScalarExprs
+import Witverif.Generated.ScalarExprs.C
 /-! # C14, backend `c`: one theorem per scalar ABI instruction
 
 `G.c_I` is the list of conversion expressions the `c` generator emitted for instruction `I`
